@@ -200,6 +200,13 @@ theorem locksSkip_locked (take : Bool) (l : List Nat) (k : Key) : (locksSkip tak
     · split
       · rfl
       · split <;> simp [foldl_unrefW_locked]
+@[simp] theorem addWaitLock_locked (k : Key) (rid : Nat) : (k.addWaitLock rid).locked = k.locked := by
+  unfold Key.addWaitLock; simp only [modRec_locked, waitPush_locked]
+  split
+  · split
+    · split <;> simp [Key.rePush]
+    · rfl
+  · rfl
 theorem waitSkip_locked (l : List WEnt) (k : Key) : (waitSkip l k).1.locked = k.locked := by
   induction l generalizing k with
   | nil => rfl
@@ -210,7 +217,7 @@ theorem waitSkip_locked (l : List WEnt) (k : Key) : (waitSkip l k).1.locked = k.
     · rfl
 @[simp] theorem getWaitLock_locked (k : Key) : k.getWaitLock.1.locked = k.locked := waitSkip_locked _ _
 
-/-! ### `W` helpers -/
+/-! ### `W` helpers: basic projections -/
 
 @[simp] theorem reply_out (w : W) (c : Cmd) (a b : Nat) (d : Option Bytes) :
     (w.reply c a b d).out = w.out ++ [{ r := Slock.Engine.mkReply c a w.k.locked b, data := d }] := rfl
@@ -228,13 +235,24 @@ theorem waitSkip_locked (l : List WEnt) (k : Key) : (waitSkip l k).1.locked = k.
 @[simp] theorem bumpErr_out (w : W) : w.bumpErr.out = w.out := rfl
 @[simp] theorem bumpErr_k (w : W) : w.bumpErr.k = w.k := rfl
 @[simp] theorem bumpErr_gone (w : W) : w.bumpErr.gone = w.gone := rfl
-@[simp] theorem bumpErr_leader (w : W) : w.bumpErr.db.leader = w.db.leader := rfl
-@[simp] theorem bumpErr_aofOut (w : W) : w.bumpErr.db.aofOut = w.db.aofOut := rfl
 @[simp] theorem bumpErr_lockData (w : W) : w.bumpErr.lockData = w.lockData := rfl
+
+@[simp] theorem modK_out (w : W) (f : Key → Key) : (w.modK f).out = w.out := rfl
+@[simp] theorem modK_k (w : W) (f : Key → Key) : (w.modK f).k = f w.k := rfl
+@[simp] theorem modK_db (w : W) (f : Key → Key) : (w.modK f).db = w.db := rfl
+@[simp] theorem modK_gone (w : W) (f : Key → Key) : (w.modK f).gone = w.gone := rfl
+@[simp] theorem modR_out (w : W) (rid : Nat) (f : Rec → Rec) : (w.modR rid f).out = w.out := rfl
+@[simp] theorem modR_k (w : W) (rid : Nat) (f : Rec → Rec) : (w.modR rid f).k = w.k.modRec rid f := rfl
+@[simp] theorem modR_db (w : W) (rid : Nat) (f : Rec → Rec) : (w.modR rid f).db = w.db := rfl
+@[simp] theorem modR_gone (w : W) (rid : Nat) (f : Rec → Rec) : (w.modR rid f).gone = w.gone := rfl
+@[simp] theorem modR_lockData (w : W) (rid : Nat) (f : Rec → Rec) : (w.modR rid f).lockData = w.lockData := rfl
+theorem when_true (w : W) (f : W → W) : w.when true f = f w := rfl
+theorem when_false (w : W) (f : W → W) : w.when false f = w := rfl
 
 /-! `removeIfZero` -/
 @[simp] theorem removeIfZero_out (w : W) : w.removeIfZero.out = w.out := by unfold W.removeIfZero; split <;> rfl
 @[simp] theorem removeIfZero_key (w : W) : w.removeIfZero.k.key = w.k.key := by unfold W.removeIfZero; split <;> rfl
+@[simp] theorem removeIfZero_locked (w : W) : w.removeIfZero.k.locked = w.k.locked := by unfold W.removeIfZero; split <;> rfl
 @[simp] theorem removeIfZero_leader (w : W) : w.removeIfZero.db.leader = w.db.leader := by
   unfold W.removeIfZero; split <;> simp [DB.dropKey]
 @[simp] theorem removeIfZero_aofOut (w : W) : w.removeIfZero.db.aofOut = w.db.aofOut := by
@@ -255,16 +273,6 @@ theorem removeIfZero_of_nonzero (w : W) (h : w.k.refCount ≠ 0) : w.removeIfZer
   unfold W.removeIfZero
   have : (w.k.refCount == 0) = false := by simpa using h
   simp [this]
-
-/-! `unrefCheck` -/
-@[simp] theorem unrefCheck_out (w : W) (rid : Nat) : (w.unrefCheck rid).out = w.out := by
-  unfold W.unrefCheck; simp only []; split <;> simp
-@[simp] theorem unrefCheck_key (w : W) (rid : Nat) : (w.unrefCheck rid).k.key = w.k.key := by
-  unfold W.unrefCheck; simp only []; split <;> simp
-@[simp] theorem unrefCheck_leader (w : W) (rid : Nat) : (w.unrefCheck rid).db.leader = w.db.leader := by
-  unfold W.unrefCheck; simp only []; split <;> simp
-@[simp] theorem unrefCheck_aofOut (w : W) (rid : Nat) : (w.unrefCheck rid).db.aofOut = w.db.aofOut := by
-  unfold W.unrefCheck; simp only []; split <;> simp
 
 /-! `procData`: the only place where the value changes -/
 @[simp] theorem procData_out (w : W) (ct : Slock.Value.CmdType) (c : Cmd) (f : Option Bytes) (rid : Nat) :
@@ -341,100 +349,5 @@ theorem aofLockData_vstrip (k : Key) (b : Bool) (rid : Nat) : vstrip (aofLockDat
   · split
     · split <;> rfl
     · rfl
-
-theorem pushLockAof_frame (w : W) (rid flag : Nat) :
-    (w.pushLockAof rid flag).out = w.out ∧ (w.pushLockAof rid flag).gone = w.gone ∧ (w.pushLockAof rid flag).k.key = w.k.key ∧
-    (w.pushLockAof rid flag).db.leader = w.db.leader ∧ (w.pushLockAof rid flag).db.now = w.db.now ∧
-    vstrip (w.pushLockAof rid flag).k.cell = vstrip w.k.cell ∧ (w.pushLockAof rid flag).k.locked = w.k.locked ∧
-    (w.db.leader = false → (w.pushLockAof rid flag).db.aofOut = w.db.aofOut) := by
-  unfold W.pushLockAof
-  split
-  · simp
-  · simp only []
-    split
-    · simp
-    · rename_i hl _
-      refine ⟨rfl, rfl, by simp, rfl, rfl, by simpa using aofLockData_vstrip w.k true rid, by simp, ?_⟩
-      intro h; simp [h] at hl
-
-theorem pushLockAofN_frame (n : Nat) (w : W) (rid : Nat) :
-    (W.pushLockAofN n w rid).out = w.out ∧ (W.pushLockAofN n w rid).gone = w.gone ∧ (W.pushLockAofN n w rid).k.key = w.k.key ∧
-    (W.pushLockAofN n w rid).db.leader = w.db.leader ∧ (W.pushLockAofN n w rid).db.now = w.db.now ∧
-    vstrip (W.pushLockAofN n w rid).k.cell = vstrip w.k.cell ∧ (W.pushLockAofN n w rid).k.locked = w.k.locked ∧
-    (w.db.leader = false → (W.pushLockAofN n w rid).db.aofOut = w.db.aofOut) := by
-  induction n generalizing w with
-  | zero => simp [W.pushLockAofN]
-  | succ n ih =>
-    unfold W.pushLockAofN
-    obtain ⟨a1, a2, a3, a4, a5, a6, a7, a8⟩ := pushLockAof_frame w rid 0
-    obtain ⟨b1, b2, b3, b4, b5, b6, b7, b8⟩ := ih (w.pushLockAof rid 0)
-    refine ⟨b1.trans a1, b2.trans a2, b3.trans a3, b4.trans a4, b5.trans a5, b6.trans a6, b7.trans a7, ?_⟩
-    intro h
-    rw [b8 (by rw [a4]; exact h), a8 h]
-
-theorem pushUnLockAof_frame (w : W) (rid : Nat) (lc : Cmd) (fa ia : Bool) (flag : Nat) :
-    (w.pushUnLockAof rid lc fa ia flag).out = w.out ∧ (w.pushUnLockAof rid lc fa ia flag).gone = w.gone ∧
-    (w.pushUnLockAof rid lc fa ia flag).k.key = w.k.key ∧
-    (w.pushUnLockAof rid lc fa ia flag).db.leader = w.db.leader ∧ (w.pushUnLockAof rid lc fa ia flag).db.now = w.db.now ∧
-    vstrip (w.pushUnLockAof rid lc fa ia flag).k.cell = vstrip w.k.cell ∧ (w.pushUnLockAof rid lc fa ia flag).k.locked = w.k.locked ∧
-    (w.db.leader = false → (w.pushUnLockAof rid lc fa ia flag).db.aofOut = w.db.aofOut) := by
-  unfold W.pushUnLockAof
-  split
-  · simp
-  · split
-    · simp
-    · rename_i hl _
-      refine ⟨rfl, rfl, by simp, rfl, rfl, by simpa using aofLockData_vstrip w.k false rid, by simp, ?_⟩
-      intro h; simp [h] at hl
-
-/-! wheels -/
-theorem addTimeOut_frame (w : W) (rid : Nat) :
-    (w.addTimeOut rid).out = w.out ∧ (w.addTimeOut rid).gone = w.gone ∧ (w.addTimeOut rid).k.key = w.k.key ∧
-    (w.addTimeOut rid).db.leader = w.db.leader ∧ (w.addTimeOut rid).db.now = w.db.now ∧
-    (w.addTimeOut rid).k.cell = w.k.cell ∧ (w.addTimeOut rid).k.locked = w.k.locked ∧ (w.addTimeOut rid).db.aofOut = w.db.aofOut := by
-  unfold W.addTimeOut; simp
-
-theorem schedExpried_frame (w : W) (rid : Nat) :
-    (w.schedExpried rid).out = w.out ∧ (w.schedExpried rid).gone = w.gone ∧ (w.schedExpried rid).k.key = w.k.key ∧
-    (w.schedExpried rid).db.leader = w.db.leader ∧ (w.schedExpried rid).db.now = w.db.now ∧
-    (w.schedExpried rid).k.cell = w.k.cell ∧ (w.schedExpried rid).k.locked = w.k.locked ∧
-    (w.schedExpried rid).db.aofOut = w.db.aofOut := by
-  unfold W.schedExpried; simp
-
-theorem addExpried_frame (w : W) (rid : Nat) :
-    (w.addExpried rid).out = w.out ∧ (w.addExpried rid).gone = w.gone ∧ (w.addExpried rid).k.key = w.k.key ∧
-    (w.addExpried rid).db.leader = w.db.leader ∧ (w.addExpried rid).db.now = w.db.now ∧
-    vstrip (w.addExpried rid).k.cell = vstrip w.k.cell ∧ (w.addExpried rid).k.locked = w.k.locked ∧
-    (w.db.leader = false → (w.addExpried rid).db.aofOut = w.db.aofOut) := by
-  obtain ⟨a1, a2, a3, a4, a5, a6, a7, a8⟩ := schedExpried_frame w rid
-  unfold W.addExpried
-  simp only []
-  split
-  · obtain ⟨b1, b2, b3, b4, b5, b6, b7, b8⟩ := pushLockAofN_frame (w.k.getR rid).depth (w.schedExpried rid) rid
-    exact ⟨b1.trans a1, b2.trans a2, b3.trans a3, b4.trans a4, b5.trans a5, by rw [b6, a6], b7.trans a7,
-      fun h => by rw [b8 (by rw [a4]; exact h), a8]⟩
-  · exact ⟨a1, a2, a3, a4, a5, by rw [a6], a7, fun _ => a8⟩
-
-theorem removeLongT_frame (w : W) (rid : Nat) :
-    (w.removeLongT rid).out = w.out ∧ (w.removeLongT rid).gone = w.gone ∧ (w.removeLongT rid).k.key = w.k.key ∧
-    (w.removeLongT rid).db = w.db ∧ (w.removeLongT rid).k.cell = w.k.cell ∧ (w.removeLongT rid).k.locked = w.k.locked := by
-  unfold W.removeLongT; simp [Key.unrefOnly, Key.modRec]
-theorem removeLongE_frame (w : W) (rid : Nat) :
-    (w.removeLongE rid).out = w.out ∧ (w.removeLongE rid).gone = w.gone ∧ (w.removeLongE rid).k.key = w.k.key ∧
-    (w.removeLongE rid).db = w.db ∧ (w.removeLongE rid).k.cell = w.k.cell ∧ (w.removeLongE rid).k.locked = w.k.locked := by
-  unfold W.removeLongE; simp [Key.unrefOnly, Key.modRec]
-
-theorem newLock_frame (w : W) (c : Cmd) (d : Option Bytes) :
-    (w.newLock c d).1.out = w.out ∧ (w.newLock c d).1.gone = w.gone ∧ (w.newLock c d).1.k.key = w.k.key ∧
-    (w.newLock c d).1.db.leader = w.db.leader ∧ (w.newLock c d).1.db.now = w.db.now ∧ (w.newLock c d).1.k.cell = w.k.cell ∧
-    (w.newLock c d).1.k.locked = w.k.locked ∧ (w.newLock c d).1.db.aofOut = w.db.aofOut ∧ (w.newLock c d).1.k.waited = w.k.waited := by
-  unfold W.newLock; simp
-
-theorem addLock_frame (w : W) (rid : Nat) :
-    (w.addLock rid).out = w.out ∧ (w.addLock rid).gone = w.gone ∧ (w.addLock rid).k.key = w.k.key ∧
-    (w.addLock rid).db = w.db ∧ (w.addLock rid).k.cell = w.k.cell ∧ (w.addLock rid).k.locked = w.k.locked := by
-  unfold W.addLock
-  simp only []
-  refine ⟨trivial, trivial, ?_, trivial, ?_, ?_⟩ <;> (split <;> (try simp))
 
 end Slock.Engine2
